@@ -22,12 +22,21 @@ func init() {
 			ruleJSONTime(c)
 			ruleDescMarshalers(c)
 			ruleJSONWalkerOut(c)
+			// "numbers exact": how the outputter formats the floats and integers the walker hands it
+			ruleJSONNumbers(c)
 			ruleFlatWalker(c)
 			ruleMapKeyPlain(c)
 			ruleNullOnlyForPresence(c)
 			ruleMapEntryShape(c)
 			ruleLeadCountEmpty(c)
 			ruleStructDescriptor(c)
+			// the walker reads by the descriptor: a descriptor that describes other bytes than the codec writes,
+			// or that drops the presence flag the object/list decision rests on, changes the walk
+			ruleWire(c)
+			ruleLeafDescriptors(c)
+			rulePresenceFlag(c)
+			rulePresenceStore(c)
+			ruleSkipAfterTag(c)
 			ruleLookupStateless(c, []string{"plenccodec.Descriptor.readAsStruct"})
 		},
 	})
